@@ -104,7 +104,7 @@ func (e *c17Env) snapshot() string {
 func TestVerif_C17(t *testing.T) {
 	r := verifmc.NewReport("C17", "finalise-histories", "model_checking")
 	defer r.Write()
-	maxN := verifmc.Pick(5, 6)
+	maxN := verifmc.Pick(5, 7)
 	maxReq := verifmc.Pick(2, 3)
 	r.Rule = fmt.Sprintf("every parent vector with up to %d nodes (node 0 = genesis) imported into a real BlockState with bodies and one state trie per block, then every sequence of up to %d finalisation requests (targets: every block of the tree and an unknown hash; rounds increasing) checked against a parent-map reference: success iff the target is a known proper descendant of the finalised head (re-finalising the head itself is not judged); a failed request changes nothing observable; after success every number up to the head resolves from the database to the canonical chain and every abandoned block is gone from the unfinalised map, GetHeader/HasHeader and Tries", maxN, maxReq)
 	type job struct {
